@@ -191,7 +191,9 @@ def run_tlc_in(wd, module, cfg, env=None, workers=None, heap="6g", timeout=900, 
     for f in glob.glob(os.path.join(VERIF, "spec", "*.tla")) + glob.glob(os.path.join(VERIF, "spec", "*.cfg")):
         shutil.copy(f, wd)
     write_kfopen(wd)
-    cmd = ["java", "-XX:+UseParallelGC", "-Xmx" + heap, "-Xss512m", "-cp", JAR + ":" + CM, "tlc2.TLC",
+    jtmp = os.path.join(wd, "jtmp")     # TLC unpacks its module jars into java.io.tmpdir and leaves them behind
+    os.makedirs(jtmp, exist_ok=True)
+    cmd = ["java", "-XX:+UseParallelGC", "-Xmx" + heap, "-Xss512m", "-Djava.io.tmpdir=" + jtmp, "-cp", JAR + ":" + CM, "tlc2.TLC",
            "-workers", str(workers or NCPU), "-maxSetSize", "20000000", "-metadir", os.path.join(wd, "meta"), "-config", cfg]
     if extra:
         cmd += extra
